@@ -130,7 +130,39 @@ def sig_cluster_meta(job, name, a, b):
     return False
 
 
+CHANLINE = re.compile(rb"^(wwr|wrd) r\d+ ch\d+$|^chw$|^chr$")
+
+
+def _sort_slocs(x):
+    if isinstance(x, dict):
+        return {k: (sorted(v) if k == "Slocs" and isinstance(v, list) else _sort_slocs(v)) for k, v in x.items()}
+    if isinstance(x, list):
+        return [_sort_slocs(v) for v in x]
+    return x
+
+
+def sig_bondgo_goargs(job, name, a, b):
+    """bondgo, `go f(a, b, …)` with several arguments: the same instructions, only the channel
+    writes / reads that pass the arguments are emitted in another order"""
+    if job["tool"] != "bondgo":
+        return False
+    if name.endswith(".asm") or ".asm_" in name:
+        la, lb = a.split(b"\n"), b.split(b"\n")
+        if len(la) != len(lb) or sorted(la) != sorted(lb):
+            return False
+        return all(x == y or (CHANLINE.match(x) and CHANLINE.match(y)) for x, y in zip(la, lb))
+    if name.endswith(".json"):
+        try:
+            return _sort_slocs(json.loads(a)) == _sort_slocs(json.loads(b))
+        except Exception:
+            return False
+    return False
+
+
 SIGNATURES = {
+    "C07-bondgo-goargs-order": (sig_bondgo_goargs,
+                                "bondgo passes the arguments of `go f(a, b, …)` by ranging over maps: the channel writes of the caller "
+                                "and (independently) the channel reads of the new processor come out in map order"),
     "C07-neuralbond-cpdef-order": (sig_neuralbond_cpdef,
                                    "neuralbond WriteBasm emits the `%meta cpdef … fragcollapse` lines in map order"),
     "C07-bmreqs-dump-order": (sig_bmreqs_dump,
@@ -188,14 +220,20 @@ def make_jobs(thorough, stage_dir):
             jobs.append({"tool": "basm", "kind": "basm-cluster", "inputs": [src],
                          "argv": [_bin("basm")] + chooser + ["-co", "{out}/cluster.json", "-oprefix", "{out}/edge_", src]})
             continue
-        jobs.append({"tool": "basm", "kind": "basm", "inputs": [src],
-                     "argv": [_bin("basm")] + chooser + ["-o", "{out}/bm.json", "-bo", "{out}/bm.bcof", src]})
+        jobs.append({"tool": "basm", "kind": "basm", "inputs": [src], "copy": {"bminfo.json": _corp("empty_bminfo.json")},
+                     "argv": [_bin("basm")] + chooser + ["-o", "{out}/bm.json", "-bo", "{out}/bm.bcof",
+                                                         "-bminfo-file", "{out}/bminfo.json", src]})
+        if b"mapclk" in open(src, "rb").read():
+            jobs.append({"tool": "basm", "kind": "basm-mapfile", "inputs": [src],
+                         "argv": [_bin("basm")] + chooser + ["-o", "{out}/bm.json", "-create-mapfile", "{out}/map.json", src]})
         jobs.append({"tool": "basm", "kind": "basm-dumpreq", "inputs": [src],
                      "argv": [_bin("basm")] + chooser + ["-o", "{out}/bm.json", "-dump-requirements", "{out}/req.json", src]})
     for f in sorted(f for f in os.listdir(CORP) if f.endswith(".go")):
         src = _corp(f)
         jobs.append({"tool": "bondgo", "kind": "bondgo", "inputs": [src], "may_hang": True,
                      "argv": [_bin("bondgo"), "-input-file", src, "-mpm", "-save-bondmachine", "{out}/bm.json"]})
+        jobs.append({"tool": "bondgo", "kind": "bondgo-asm", "inputs": [src], "may_hang": True,
+                     "argv": [_bin("bondgo"), "-input-file", src, "-save-assembly", "{out}/prog.asm", "-save-machine", "{out}/machine.json"]})
     nets = ["net-testsmall.json"] + (["net-banknote.json", "net-testnormal.json"] if thorough else [])
     lib = os.path.join(repo, "library", "neurons")
     frags = sorted(os.path.join(lib, f) for f in os.listdir(lib) if f.startswith("frag-") and f.endswith(".basm")) \
@@ -237,7 +275,9 @@ def make_jobs(thorough, stage_dir):
         flavors = ["seq_hardcoded_real"] + (["seq_hardcoded_complex", "seq_hardcoded_addtree_complex"] if thorough else [])
         for fl in flavors:
             q = {"tool": "bmqsim", "kind": "bmqsim-" + fl, "inputs": [bmq],
-                 "argv": [_bin("bmqsim"), "-build-matrix-seq-hardcoded", "-hw-flavor", fl, "-save-basm", "{out}/q.basm", bmq]}
+                 "argv": [_bin("bmqsim"), "-build-matrix-seq-hardcoded", "-hw-flavor", fl, "-save-basm", "{out}/q.basm",
+                          "-save-bondmachine", "{out}/qbm.json", "-show-matrices", "-show-circuit-matrix",
+                          "-emit-bmapi-maps", "-bmapi-maps-file", "{out}/qmaps.json", bmq]}
             jobs.append(q)
             st = os.path.join(stage_dir, "bmq-" + fl)
             jobs.append({"tool": "basm", "kind": "basm-on-bmqsim", "after": q, "stage": st, "stage_file": "q.basm",
@@ -433,7 +473,7 @@ def judge(rep, jobs, results, r):
         ok0 = [x for x in done if x["rc"] == 0]
         t["rc0"] += len(ok0)
         if ok0:
-            art = {n: b for n, b in ok0[0]["files"].items() if n != "<stdout>" and n != "cfg.json"}
+            art = {n: b for n, b in ok0[0]["files"].items() if n != "<stdout>" and n != "cfg.json"}  # cfg.json: rewritten input
             size = sum(len(b) for b in art.values())
             t["artefact_bytes"] += size
             if size > 0 and len(done) >= 2:
